@@ -19,7 +19,7 @@ class CoreStmtGen(G.StmtGen):
 
     def select(self, depth=0, simple=False, scalar=False):
         s = super().select(depth, simple, scalar)
-        s["all_kw"], s["fetch"], s["for_"], s["offset_rows"] = False, None, None, False
+        s["all_kw"], s["for_"], s["offset_rows"] = False, None, False
         s["cols"] = [((("star",), None, False) if e[0] == "qstar" else (e, al, askw)) for e, al, askw in s["cols"]]
         s["group_by"] = [g for g in s["group_by"] if g[0] in ("expr", "rollup", "cube")]
         return s
@@ -85,7 +85,7 @@ class Conv:
 
     def select(self, s, k):
         sh = 16 * k
-        need(not s["all_kw"] and not s["fetch"] and not s["for_"] and not s["offset_rows"] and not s.get("rollup_mysql"))
+        need(not s["all_kw"] and not s["for_"] and not s["offset_rows"] and not s.get("rollup_mysql"))
         need(s["distinct"] or not s["distinct_on"])
         don = [self.E(e, CL["don"] + sh, i) for i, e in enumerate(s["distinct_on"])]
         items = []
@@ -127,9 +127,15 @@ class Conv:
             ob.append("(MkOrder %s %s %s)" % (self.E(e, CL["order"] + sh, i), "None" if d is None else "(Some %s)" % G.coq_bool(d == "ASC"),
                                               "None" if n is None else "(Some %s)" % G.coq_bool(n)))
         num = lambda v: "None" if v is None else "(Some %s)" % G.coq_str(str(v))
-        return "(MkSelect %s [%s] [%s] [%s] [%s] %s [%s] %s [%s] %s %s)" % (
+        f = s["fetch"]
+        if f:
+            rows = {"": "None", "ROWS": "(Some true)", "ROW": "(Some false)"}[f["rows"]]
+            fe = "(Some (MkFetch %s %s %s %s %s))" % (G.coq_bool(f["type"] == "NEXT"), G.coq_str(str(f["value"])), G.coq_bool(f["percent"]), rows, G.coq_bool(f["ties"]))
+        else:
+            fe = "None"
+        return "(MkSelect %s [%s] [%s] [%s] [%s] %s [%s] %s [%s] %s %s %s)" % (
             G.coq_bool(s["distinct"]), "; ".join(don), "; ".join(items), "; ".join(frm), "; ".join(joins), wh, "; ".join(gb), hv, "; ".join(ob),
-            num(s["limit"]), num(s["offset"]))
+            num(s["limit"]), num(s["offset"]), fe)
 
     def query(self, q, base):
         """-> (term, number of selects)"""
@@ -275,6 +281,8 @@ FIXED_TEXTS = [
     "INSERT INTO t VALUES ( 1 ) ON CONFLICT ON CONSTRAINT DO NOTHING", "INSERT INTO t VALUES ( 1 ) ON DUPLICATE KEY UPDATE a = 1", "INSERT INTO t VALUES ( 1 ) ON CONFLICT DO NOTHING WHERE a", "SELECT 1 x y", "SELECT 1 FETCH FIRST 1 ROWS ONLY",
     "SELECT DISTINCT ON ( a + 1 , ( b ) ) c , d FROM t", "SELECT a FROM t GROUP BY ROLLUP ( a , b + 1 ) , c , CUBE ( ( d ) )", "SELECT a FROM t GROUP BY ROLLUP ( )",
     "SELECT a FROM t GROUP BY ROLLUP a", "SELECT a FROM t GROUP BY CUBE ( a b )", "SELECT a FROM t GROUP BY ROLLUP ( a ) HAVING b ORDER BY c",
+    "SELECT a FROM t FETCH FIRST 3 ROWS ONLY", "SELECT a FROM t OFFSET 2 FETCH NEXT 10 PERCENT ROW WITH TIES", "SELECT a FROM t FETCH FIRST 3", "SELECT a FROM t FETCH 3 ROWS ONLY",
+    "SELECT a FROM t FETCH NEXT 3 WITH", "SELECT a FROM t FETCH FIRST x ROWS ONLY", "SELECT a FROM t FETCH FIRST 3 ROWS ONLY FOR UPDATE", "SELECT a FROM t FETCH FIRST 1 ROW ONLY UNION SELECT b FROM u",
     "SELECT a FROM t GROUP BY 'GROUPING SETS' , b", 'SELECT a FROM t GROUP BY "GROUPING SETS"', "SELECT a FROM t GROUP BY GROUPING SETS ( ( a ) )",
     "SELECT " + "( " * 98 + "a" + " )" * 98 + " FROM t", "SELECT " + "( " * 99 + "a" + " )" * 99 + " FROM t", "SELECT " + "NOT " * 99 + "a FROM t",
 ]
